@@ -22,6 +22,8 @@ Definition dec_ev (v : tval) : ev :=
   | 12 => EMsg (a 1%nat) None
   | 15 => ERestart (if a 1%nat =? 0 then None else Some (a 1%nat - 1))
   | 16 => EBlackC (a 1%nat) | 17 => EUnblackC (a 1%nat)
+  | 18 => EBanLapse (a 1%nat) | 19 => EUnbanLands (a 1%nat)
+  | 20 => ESetRecord (a 1%nat) (vbool (vnth 2 v)) (a 3%nat)
   | 14 => ECorrupt (a 1%nat) (vbool (vnth 2 v))
   | _ => EDelAnon (a 1%nat)
   end.
